@@ -52,6 +52,30 @@ def is_shared(f, o):
     return False
 
 
+def guard_drops(lock):
+    """drop points (normal flow) of the value returned by RwLock::write() in this function."""
+    gdrops = []
+    for bi, bb in enumerate(lock.d["bbs"]):
+        t = bb["t"]
+        dl = None
+        if t.get("k") == "drop" and t.get("o"):
+            dl = t["o"][0]
+        elif t.get("k") == "call" and t.get("fp", "") == "core::mem::drop" and t.get("a"):
+            dl = t["a"][0]
+        if dl is None or "l" not in dl or bb.get("cu"):
+            continue
+        o = {"l": dl["l"]}
+        for _ in range(6):  # through `?` (Try::branch) and map_err
+            rc = panics.root_call(lock, o, depth=16)
+            if rc and rc[0] == "call" and re.search(r"Try(>)?::branch$|Result::?<T, E>::map_err$", rc[1].get("fp", "")) and rc[1].get("a"):
+                o = rc[1]["a"][0]
+                continue
+            break
+        if rc and rc[0] == "call" and re.search(r"RwLock::?<T>::write$", rc[1].get("fp", "")):
+            gdrops.append((bi, t))
+    return gdrops
+
+
 def run(rep):
     F = mir.Facts(["forc_util", "forc_fmt", "sway_lsp"])
     rep.explanation = (
@@ -96,6 +120,9 @@ def run(rep):
             guard = [(bi, t) for bi, t in f.calls() if re.search(r"RwLock<T>::write$|RwLock::<T>::write$", t.get("fp", "")) or (t.get("fp", "")).endswith("::write") and "fd_lock" in t.get("fp", "")]
             reread = [(bi, t) for bi, t in f.calls() if (t.get("fp", "")).endswith("PidFileLocking::read_pid") or re.search(r"fs::read_to_string$", t.get("fp", ""))]
             guarded = any(f.dominates(gb, rbi) for gb, _ in guard) and any(f.dominates(rb, rbi) and any(f.dominates(gb, rb) for gb, _ in guard) for rb, _ in reread)
+            if guarded:  # ... and the guard is still alive at the removal
+                gd = guard_drops(f)
+                guarded = bool(gd) and not any(any(f.dominates(gb, db) for gb, _ in guard) and rbi in f.reachable(db) for db, _ in gd)
             fam = f.name.split("::{closure")[0]
             if fam in REVIEWED_REMOVES and not guarded:
                 rep.ob("R2-stale-removal-guarded", f"{fam}|remove_file", True, f.file, rt["ln"], "reviewed: " + REVIEWED_REMOVES[fam])
@@ -116,6 +143,23 @@ def run(rep):
     okg = bool(g) and bool(w) and bool(ren) and all(lock.dominates(w[0][0], b) for b, _ in ren) and is_shared(lock, g[0][1]["a"][0])
     rep.ob("R2-takeover-under-the-same-guard", lock.name, okg, lock.file, lock.lo,
            "lock() must hold path_lock(lock path).write() across the owner check and the publishing rename")
+    if okg:
+        wb = w[0][0]
+        # the owner check: every examination of the current lock file / its owner in lock() happens under the guard, and one
+        # such examination precedes the rename (check-then-take-over is one critical section between two lockers)
+        exam = [(bi, t) for bi, t in lock.calls() if re.search(r"PidFileLocking::(read_pid|is_pid_active|get_locker_pid|is_locked)$|fs::read_to_string$|Path::exists$", t.get("fp", ""))]
+        rep.ob("R2-owner-check-inside-the-guard", lock.name + "|exists", any(lock.dominates(b, ren[0][0]) for b, _ in exam), lock.file, lock.lo,
+               "lock() takes the lock over without examining the current owner first")
+        for b, t in exam:
+            rep.ob("R2-owner-check-inside-the-guard", f"{lock.name}|{t['fp'].split('::')[-1]}", lock.dominates(wb, b) and wb != b, lock.file, t["ln"],
+                   "lock() examines the current owner before it holds the exclusive advisory lock: a second locker can pass the same check "
+                   "before the first one's rename, both succeed, and the later rename replaces the PID of a process that is still running")
+        # the guard is still held at the rename: no drop of the value returned by write() on a path write -> rename
+        gdrops = guard_drops(lock)
+        early = [(bi, t) for bi, t in gdrops if lock.dominates(wb, bi) and ren[0][0] in lock.reachable(bi)]
+        rep.ob("R2-guard-held-until-publication", lock.name, bool(gdrops) and not early, lock.file, early[0][1]["ln"] if early else lock.lo,
+               "the write guard of the advisory lock is released before the rename that publishes the lock" if gdrops else
+               "no drop of the advisory write guard found in lock() (fact extraction changed?)")
     # nobody but remove_stale_file / release path removes; get_locker_pid and cleanup go through remove_stale_file
     # every function that decides "stale" (calls is_pid_active) and may delete does so through a guarded removal: either it is
     # itself guarded (checked above) or it delegates to a function whose removal is guarded
